@@ -84,6 +84,8 @@ func dropQuantified(smt string) string {
 }
 
 func runSolver(s solverSpec, input string, timeoutS int) (verdict, output string, secs float64) {
+	slot := acquireSlot()
+	defer releaseSlot(slot)
 	ctx, cancel := context.WithTimeout(context.Background(), time.Duration(timeoutS+2)*time.Second)
 	defer cancel()
 	argv := s.argv(timeoutS)
